@@ -572,6 +572,7 @@ def build_class(cdef, interp):
             raise Unsupported(f"base class {bname} of {cdef.name} is not a class defined by the evaluated code")
         bases.append(bv)
     dc_opts = {}
+    user_class_decs = []
     for dec in cdef.decorator_list:
         dname = ast.unparse(dec.func if isinstance(dec, ast.Call) else dec).split(".")[-1]
         if dname == "dataclass":
@@ -583,7 +584,7 @@ def build_class(cdef, interp):
             if dname == "total_ordering":
                 dc_opts["order"] = dc_opts.get("order", False)
         else:
-            raise Unsupported(f"class decorator {dname} on {cdef.name}")
+            user_class_decs.append(dec)  # a decorator the package defines: called with the finished class (below)
     # class body in its own scope over the enclosing one
     body_env = dict(interp.me.env)
     before = dict(body_env)
@@ -671,6 +672,8 @@ def build_class(cdef, interp):
     if kind.startswith("enum:"):
         cls = build_enum(cdef.name, kind.split(":")[1], ns, bases)
         _set_defining_class(ns, cls)
+        for dec in reversed(user_class_decs):
+            cls = interp.me.ev(dec)(cls)
         return cls
     if "__getattr__" in ns or "__getattribute__" in ns or "__setattr__" in ns or "__new__" in ns:
         raise Unsupported(f"attribute hooks / __new__ in class {cdef.name}")
@@ -687,6 +690,13 @@ def build_class(cdef, interp):
         hook.clo(cls, **class_kwargs)
     elif class_kwargs:
         raise ModelRaise("TypeError", f"{cdef.name}.__init_subclass__() takes no keyword arguments")
+    # `@register("and") class Rule: ...`: decorators of the package run with the finished class, innermost first; the name is bound
+    # to what the outermost returns
+    for dec in reversed(user_class_decs):
+        fn = interp.me.ev(dec)
+        if not callable(fn):
+            raise Unsupported(f"class decorator {ast.unparse(dec)[:50]} on {cdef.name} is not callable in the evaluator")
+        cls = fn(cls)
     return cls
 
 
